@@ -17,6 +17,7 @@ Line-protocol driver for the C09 model (name → id assignment), see harness/int
   srace tagkey|field <metricId> <nameA> <nameB>  (two callers, A stopped before the store lock)
   lflush <nsBucket> <ns> <name>               (GenMetricID of existing names ‖ a whole metadata flush)
   bcrace <nsBucket> <ns> <x>                  (lookup of an unknown name stopped after getSnapshot ‖ flush persisting x; then GenMetricID(ns, x))
+  brelease <tagKeyId> <v> <otherTagKeyId>     (GenTagValueID stopped between the cache hit and bucket.GetValue ‖ flush purging the cache ‖ load of another bucket)
   scrace <metricId> <fb> <fc>                 (reader's GetSchema stopped before cache.Add ‖ writer fb ‖ flush; then writer fc)
   swindow field <metricId> <f>                (metadata flush; GenFieldID runs between the schema commit and MarkPersisted)
   bload <hex>                                 (the caller's reused block buffer now holds these bytes)
@@ -252,6 +253,10 @@ def step (nd : Node) (ws : List String) : Node × String :=
   | ["bcrace", nb, ns, x] =>
     match nb.toNat?, ns.toNat?, x.toNat? with
     | some nb, some ns, some x => let r := nd.bucketCacheRace cfg nb ns x; (r.1, s!"L=notfound X={showOut r.2}")
+    | _, _, _ => bad
+  | ["brelease", tk, v, other] =>
+    match tk.toNat?, v.toNat?, other.toNat? with
+    | some tk, some v, some other => let r := nd.bucketReleaseRace cfg tk v other; (r.1, s!"R={showOut r.2}")
     | _, _, _ => bad
   | ["scrace", m, fb, fc] =>
     match m.toNat?, fb.toNat?, fc.toNat? with
